@@ -13,7 +13,7 @@ from __future__ import annotations
 
 from dataclasses import dataclass, field
 
-from typing_extensions import List, Set, Type
+from typing_extensions import List, Optional, Set, Type
 
 from krrood.class_diagrams.utils import Role
 from krrood.entity_query_language.predicate import Predicate, Symbol
@@ -225,6 +225,21 @@ class VPerson(Symbol):
 
 
 @dataclass(eq=False)
+class Keeper(Symbol):
+    """a managed collection field that may be missing: declared Optional, default None"""
+    name: str
+    keeps: Optional[List[Org]] = None
+
+    def __repr__(self):
+        return f"Keeper({self.name})"
+
+
+@dataclass
+class Keeps(PropertyDescriptor):
+    pass
+
+
+@dataclass(eq=False)
 class Row(Symbol):
     """a user class may have a field with the name the expression nodes use for their identifier"""
     name: str
@@ -397,10 +412,11 @@ Org.wholly_owned_by = WhollyOwnedBy(Org, "wholly_owned_by")
 Org.part_of = PartOf(Org, "part_of")
 Org.has_part = HasPart(Org, "has_part")
 Folder.stamps = HasStamp(Folder, "stamps")
+Keeper.keeps = Keeps(Keeper, "keeps")
 
 PERSON_CLASSES = {"Person": Person, "Employee": Employee, "Manager": Manager, "Volunteer": Volunteer,
                   "WorkingStudent": WorkingStudent}
 ORG_CLASSES = {"Org": Org, "Dept": Dept}
 ODD_CLASSES = {"Bag": Bag, "Crate": Crate}
 ALL_CLASSES = {**PERSON_CLASSES, **ORG_CLASSES, "SeasonalA": SeasonalA, "SeasonalB": SeasonalB, "Loose": Loose, "Chief": Chief, "ChiefF": ChiefF, "ChiefE": ChiefE, "VOrg": VOrg, "VPerson": VPerson, "Unit": Unit,
-               "Visitor": Visitor, "Delegate": Delegate, "Chair": Chair, "Convener": Convener, "Boss": Boss, "Folder": Folder, "Stamp": Stamp, "Row": Row, "Lenient": Lenient}
+               "Visitor": Visitor, "Delegate": Delegate, "Chair": Chair, "Convener": Convener, "Boss": Boss, "Folder": Folder, "Stamp": Stamp, "Row": Row, "Lenient": Lenient, "Keeper": Keeper}
